@@ -119,3 +119,24 @@ Example cmp_example :
   cmp_case {| has_eq := false; has_lt := true; has_le := false; has_gt := false;
               has_ge := false; same_type := true |} bs x y = None.
 Proof. repeat split. Qed.
+
+(** Non-vacuity of [derived_consistent_l]: honest functions on integer ranks
+    satisfy its hypotheses; with only [eq] and [le] supplied, all six methods
+    answer by the order, for all values of one class. *)
+Example derived_consistent_nonvacuous :
+  let c := {| has_eq := true; has_lt := false; has_le := true; has_gt := false;
+              has_ge := false; same_type := true |} in
+  forall a b : nat * cval, cv_cls (snd a) = cv_cls (snd b) ->
+  forall o,
+    meth cval (interp BHonest OEq) (interp BHonest OLt) (interp BHonest OLe)
+      (interp BHonest OGt) (interp BHonest OGe) (fun x y => cv_cls x =? cv_cls y) c o a b
+    = of_bool (honest o (cv_rank (snd a)) (cv_rank (snd b))).
+Proof.
+  intros c a b Hcls o.
+  apply (derived_consistent_l cval _ _ _ _ _ _ cv_rank c).
+  - reflexivity.
+  - intros o' Hs x y. destruct o'; cbn in Hs; try discriminate; reflexivity.
+  - cbn. unfold w_val. rewrite Hcls. apply Nat.eqb_refl.
+  - cbn. unfold w_val. rewrite Hcls. apply Nat.eqb_refl.
+  - destruct o; reflexivity.
+Qed.
